@@ -5,7 +5,7 @@
    The store itself (last value per topic, lookups by filter) is Proofs/RetTrieP.v; its
    refinement relation `R` (trie database against flat map topic -> message) is used here
    for arbitrary databases, so that the statements hold of every state whose retained store
-   is related to a flat map - every reachable state, `ret_inv_run` at the end of the file. *)
+   is related to a flat map - every reachable state (section 7: `reachable_ret_history`, `ret_inv_run`). *)
 From Coq Require Import List NArith ZArith Bool Arith Lia ZifyN ZifyNat ZifyBool.
 Import ListNotations.
 From GM Require Import Base.Topic Base.Msg Model.SubTrie Model.RetTrie Model.Queue Model.Limiter
